@@ -9,6 +9,7 @@ import (
 	"sort"
 	"strings"
 	"sync"
+	"time"
 
 	smtp "github.com/emersion/go-smtp"
 
@@ -191,3 +192,23 @@ var givenUp sync.Map
 
 func giveUp(class string)      { givenUp.Store(class, true) }
 func gaveUp(class string) bool { _, ok := givenUp.Load(class); return ok }
+
+// serverKnobs switches on, as a deterministic function of the case key, server settings that
+// must not change the behaviour under test: a Debug writer (the traffic is then read through a
+// tee) in one case out of five, a (virtual, never expiring) WriteTimeout in one out of seven.
+// What was set is noted in the event log so that a witness shows it.
+func serverKnobs(rig *wire.Rig, key string) {
+	h := core.HashStr(key)
+	var set []string
+	if h%5 == 0 {
+		rig.Srv.Debug = io.Discard
+		set = append(set, "Debug")
+	}
+	if (h/5)%7 == 0 {
+		rig.Srv.WriteTimeout = time.Hour
+		set = append(set, "WriteTimeout")
+	}
+	if len(set) > 0 {
+		rig.Log.Act("server knobs: " + strings.Join(set, ", "))
+	}
+}
